@@ -68,7 +68,14 @@ def make_truth(N, c, lib, rng):
         for p in ins:
             s = pins.get(p)
             if s in drivers and rng.random() < 0.6:
-                ic.append((drivers[s], f'{inst}/{p}', rand_triple(rng, False), rand_triple(rng, False) if rng.random() < 0.8 else 'same'))
+                if rng.random() < 0.2:
+                    # empty (or all-zero) rise list with a real fall list, and the other way round
+                    r_, f_ = (None, rand_triple(rng, False)) if rng.random() < 0.6 else (rand_triple(rng, False), None)
+                    if rng.random() < 0.3 and r_ is None:
+                        r_ = [0.0, 0.0, 0.0]
+                    ic.append((drivers[s], f'{inst}/{p}', r_, f_))
+                else:
+                    ic.append((drivers[s], f'{inst}/{p}', rand_triple(rng, False), rand_triple(rng, False) if rng.random() < 0.8 else 'same'))
     # interconnects that end at an output port (ports never get a branch fork)
     for b in N.outputs():
         if b in drivers and rng.random() < 0.7:
@@ -83,7 +90,11 @@ def render_sdf(N, io, ic, rng, style):
 
     def ic_block(entries):
         b = [f' (CELL (CELLTYPE "{N.name}") (INSTANCE)', '  (DELAY (ABSOLUTE']
-        for a, d, r, f in entries:
+        cut = rng.randrange(1, len(entries)) if len(entries) >= 2 and rng.random() < 0.35 else None
+        for k_, (a, d, r, f) in enumerate(entries):
+            if k_ == cut:
+                # a second DELAY section inside the same CELL block
+                b += ['  ))', '  (DELAY (ABSOLUTE']
             fl = '' if f == 'same' else ' ' + triple_text(f, rng)
             b.append(f'   (INTERCONNECT {sdf_name(a)} {sdf_name(d)} {triple_text(r, rng)}{fl})')
         b.append('  ))')
@@ -107,7 +118,11 @@ def render_sdf(N, io, ic, rng, style):
             groups = [es[:k], es[k:]]
         for g in groups:
             b = [f' (CELL (CELLTYPE "{types[inst]}") (INSTANCE {sdf_name(inst)})', '  (DELAY (ABSOLUTE']
-            for _, ip, edge, op, r, f in g:
+            cut = rng.randrange(1, len(g)) if len(g) >= 2 and rng.random() < 0.35 else None
+            for k_, (_, ip, edge, op, r, f) in enumerate(g):
+                if k_ == cut:
+                    # several DELAY sections in one CELL block, here split by a TIMINGCHECK
+                    b += ['  ))', '  (TIMINGCHECK (HOLD D (posedge CK) (0.05:0.05:0.05)))', '  (DELAY (ABSOLUTE']
                 ipt = f'({edge} {ip})' if edge else ip
                 fl = '' if f == 'same' else ' ' + triple_text(f, rng)
                 b.append(f'   (IOPATH {ipt} {op} {triple_text(r, rng)}{fl})')
@@ -214,7 +229,7 @@ def part(tier, seed):
     b = BoundedPart('C14-sdf-round-trip', ['kyupy.sdf.parse', 'kyupy.sdf.SdfTransformer.start/cell/triple', 'kyupy.sdf.DelayFile.iopaths', 'kyupy.sdf.DelayFile.interconnects',
                                           'kyupy.verilog.parse (branch forks)'],
                     'seeded netlists (NANGATE, SAED32; no buses) x SDF files printed from ghost entries: IOPATH per connected input pin (rise / fall triples, single list, empty '
-                    'triples and empty fields, posedge / negedge qualifiers on flip-flop clocks), INTERCONNECT from driver pin or input port to reader pin, TIMINGCHECK blocks, '
+                    'triples and empty fields, posedge / negedge qualifiers on flip-flop clocks), INTERCONNECT from driver pin or input port to reader pin (incl. empty / zero rise with a real fall list and vice versa), TIMINGCHECK blocks, several DELAY sections in one CELL block, '
                     'shuffled CELL blocks; grouping styles: one block per instance, repeated blocks for one instance, several anonymous top-level interconnect blocks; x both '
                     'branchforks; ensures every entry at its [dataset, line, input polarity, output polarity] and all other entries zero; distinct = (netlist, style, branchforks)',
                     f'{25 if tier == "quick" else 400} netlists per library x 3 grouping styles x 2 branchforks')
